@@ -77,7 +77,7 @@ PROFILES = {
     "C09": {"drain": 3, "proppatch": 12, "lock": 6, "reupload": 8, "delete": 9, "untyped": 0.45, "len": 36, "put": 40,
             "get": 8, "manynames": True},
     "C14": {"invalid": 0.3, "reupload": 16, "put": 40, "grammar": 0.65, "ctparams": 0.6, "otherfiles": 0.15},
-    "C15": {"proppatch": 45, "restart": 8, "mk": 6, "delcoll": 3, "put": 12, "propheavy": True, "propsingle": 0.4},
+    "C15": {"proppatch": 45, "restart": 8, "mk": 6, "delcoll": 3, "put": 12, "propheavy": True, "propsingle": 0.4, "lock": 5},
     "C16": {"mk": 8, "delcoll": 5, "post": 10},
     "C17": {"multiget": 22, "delete": 12, "external": 0.15, "otherfiles": 0.15},
 }
